@@ -81,7 +81,7 @@ package header
 //@   ensures result1 == nil ==> !result0.IsZero() && result0.Height() == height && result0 == chainAt(height) && verified(result0)
 
 //@ iface Store.Get(s, ctx, hash)
-//@   requires [C10] deadline: ctxBounded(ctx)
+//@   requires [C10,local] deadline: ctxBounded(ctx)
 //@   ensures result1 == nil ==> !result0.IsZero() && result0.Hash() == hash && verified(result0)
 
 //@ iface Getter.GetByHeight(g, ctx, height)
@@ -102,16 +102,16 @@ package header
 //@ predicate ctxBounded(ctx Ref) -- the context carries a deadline (derived from context.WithTimeout)
 
 //@ iface Store.HasAt(s, ctx, h)
-//@   requires [C10] deadline: ctxBounded(ctx)
+//@   requires [C10,local] deadline: ctxBounded(ctx)
 //@   ensures result <==> (1 <= storeTailH && storeTailH <= h && h <= storeHeadH)
 
 //@ iface Store.Head(s, ctx, opts)
-//@   requires [C10] deadline: ctxBounded(ctx)
+//@   requires [C10,local] deadline: ctxBounded(ctx)
 //@   ensures result1 == nil ==> !result0.IsZero() && result0.Height() == storeHeadH && result0 == chainAt(storeHeadH) && 1 <= storeHeadH
 //@   ensures result1 != nil ==> result0.IsZero()
 
 //@ iface Store.GetRange(s, ctx, from, to)
-//@   requires [C10] deadline: ctxBounded(ctx)
+//@   requires [C10,local] deadline: ctxBounded(ctx)
 //@   requires [C10] bounded: from < to && to - from <= MaxRangeRequestSize
 //@   modifies ghost:storeReads
 //@   ensures storeReads == old(storeReads) + (to - from)
